@@ -419,6 +419,9 @@ func (c *logCore) Write(e zapcore.Entry, fields []zapcore.Field) error {
 			f.AddTo(enc)
 		}
 		c.rec.warns = append(c.rec.warns, fmt.Sprintf("node%d %s %s %v", c.n.idx, e.Level, e.Message, enc.Fields))
+		if strings.Contains(e.Message, "commit signature") { // rare and worth a look: always in the part's log
+			fmt.Printf("NOTE %s node%d (of %d, key label %s) ledger=%d phase=%d %s %s %v\n", time.Now().Format("05.000000"), c.n.idx, len(c.n.cl.nodes), c.n.cl.cfg.KeyLabel, c.n.bc.BlockHeight(), c.rec.phase.Load(), e.Level, e.Message, enc.Fields)
+		}
 		if debugLogs {
 			fmt.Printf("LOG node%d h=%d %s %s %v\n", c.n.idx, c.n.bc.BlockHeight(), e.Level, e.Message, enc.Fields)
 		}
